@@ -394,4 +394,94 @@ func runC06(r *mon.Run) {
 			w.Fail("c06/RecoverPoint:operand", "RecoverPoint modified its scalar", "x", hb(xs))
 		}
 	})
+
+	// --- no hidden state: decodes of RELATED inputs in adversarial order ------------------
+	// The decoders are functions of their input.  A memo / cache / reused scratch keyed on
+	// part of the input (x only, the body without the prefix, the last result) shows only
+	// when related encodings are decoded back to back: same x with the other parity, with
+	// an invalid prefix, compressed after uncompressed, recovery ids 0..3 in a row.
+	// Single goroutine, so nothing else runs between two steps.
+	r.Require("c06:seq:steps", "c06:seq:parity-flip-after-success", "c06:seq:bad-prefix-after-success")
+	r.Seq("c06/sequences", r.N(400, 20000), func(w *mon.W, i int) {
+		rng := w.Rng
+		P := pool[1+rng.Intn(np-1)].P
+		if rng.Bool() {
+			P = oracle.MulG(rng.Below(bigN))
+		}
+		if P.Inf {
+			return
+		}
+		N := oracle.Neg(P)
+		xb := b32(P.X)
+		enc := func(prefix byte) []byte { return append([]byte{prefix}, xb...) }
+		type step struct {
+			name string
+			in   []byte
+			rec  int // >= 0: RecoverPoint(x mod n, rec) instead of a byte decode
+		}
+		par := byte(2 + P.Y.Bit(0))
+		menu := []step{
+			{"same-parity", enc(par), -1}, {"other-parity", enc(par ^ 1), -1},
+			{"uncompressed", oracle.EncodeUncompressed(P), -1}, {"uncompressed-negated", oracle.EncodeUncompressed(N), -1},
+			{"bad-prefix-05", enc(5), -1}, {"bad-prefix-00", enc(0), -1}, {"hybrid-06", append([]byte{6}, oracle.EncodeUncompressed(P)[1:]...), -1},
+			{"hybrid-07", append([]byte{7}, oracle.EncodeUncompressed(P)[1:]...), -1}, {"bad-prefix-ff", enc(0xff), -1},
+			{"recover", nil, 0}, {"recover", nil, 1}, {"recover", nil, 2}, {"recover", nil, 3},
+		}
+		w.Case(true, []byte("sequence"), xb, []byte{byte(i)})
+		prevOK, prev := false, ""
+		rcv := secp256k1.NewIdentityPoint()
+		for k := 0; k < 10; k++ {
+			st := menu[rng.Intn(len(menu))]
+			w.Class("c06:seq:steps")
+			if prevOK && st.name == "other-parity" {
+				w.Class("c06:seq:parity-flip-after-success")
+			}
+			if prevOK && len(st.name) > 10 && st.name[:10] == "bad-prefix" {
+				w.Class("c06:seq:bad-prefix-after-success")
+			}
+			var want *oracle.Pt
+			var got *Point
+			var err error
+			desc := st.name
+			if st.rec >= 0 {
+				if P.X.Cmp(bigN) >= 0 {
+					continue
+				}
+				want = oracle.RecoverPoint(P.X, st.rec)
+				got, err = secp256k1.RecoverPoint(scalarFromBig(P.X), byte(st.rec))
+				desc = fmt.Sprintf("RecoverPoint(x, %d)", st.rec)
+			} else {
+				if wp, werr := oracle.DecodePoint(st.in); werr == nil {
+					want = wp
+				}
+				switch rng.Intn(3) {
+				case 0:
+					got, err = secp256k1.NewPointFromBytes(st.in)
+					desc = "NewPointFromBytes(" + st.name + ")"
+				case 1:
+					got, err = rcv.SetBytes(st.in)
+					desc = "SetBytes(" + st.name + ") on a reused receiver"
+				default:
+					if len(st.in) == 33 {
+						got, err = secp256k1.NewIdentityPoint().SetCompressedBytes(st.in)
+						desc = "SetCompressedBytes(" + st.name + ")"
+					} else {
+						got, err = secp256k1.NewIdentityPoint().SetUncompressedBytes(st.in)
+						desc = "SetUncompressedBytes(" + st.name + ")"
+					}
+				}
+			}
+			if (err == nil) != (want != nil) {
+				w.Fail("c06/sequence:verdict", fmt.Sprintf("step %d %s right after [%s]: err=%v, strict decoder accepts=%v (x = %x)", k, desc, prev, err, want != nil, P.X), "x", hx(xb), "step", desc, "previous", prev)
+				return
+			}
+			if want != nil {
+				if msg := expectPoint(got, want); msg != "" {
+					w.Fail("c06/sequence:value", fmt.Sprintf("step %d %s right after [%s]: %s", k, desc, prev, msg), "x", hx(xb), "step", desc, "previous", prev)
+					return
+				}
+			}
+			prevOK, prev = want != nil, desc
+		}
+	})
 }
